@@ -21,7 +21,7 @@ ATOL = 1e-11
 RULE = ('objects: pardim 1-3, dim 2-3(4), rational with positive weights, open/periodic bases per direction, non-square shapes; '
         'parameters: knots, ends, span interiors, outside (ValueError), periodic points periods away; forms: grid lists, scalars, '
         'tensor=False, __call__, default control points (identity map), bounding box.  non-trivial = parameters inside the domain.')
-REQUIRED_TAGS = ['form=mixed', 'mixed:pardim=3', 'equal-weights-not-one', 'form=grid', 'form=scalar', 'form=pointwise', 'form=default', 'outside', 'rational', 'periodic-dir', 'pardim=1', 'pardim=2', 'pardim=3', 'form=bbox']
+REQUIRED_TAGS = ['form=seq', 'seq:end-weight-not-one', 'seq:scalar-evaluate-then-more', 'form=mixed', 'mixed:pardim=3', 'equal-weights-not-one', 'form=grid', 'form=scalar', 'form=pointwise', 'form=default', 'outside', 'rational', 'periodic-dir', 'pardim=1', 'pardim=2', 'pardim=3', 'form=bbox']
 
 
 def _params(rng, o, n_per_dir, outside=False):
@@ -81,6 +81,12 @@ def generate(rng, tier):
                 bad[0] = bad[0][:-1]     # unequal lengths with tensor=False -> ValueError
                 specs.append({'form': 'pointwise', 'obj': o, 'params': bad})
         specs.append({'form': 'bbox', 'obj': o})
+        # several calls on ONE object: evaluation is a query, so every call must still agree with
+        # the definition for the control points the object was built with, and the control points
+        # must be bit-for-bit unchanged afterwards (a result that is a view of the control net and is
+        # then divided by its weight in place shows up only in the SECOND call)
+        if oi % 2 == 0:
+            specs.append(_seq_spec(rng, o))
         # default control points: identity map
         if all(b['order'] >= 2 for b in o['bases']):
             specs.append({'form': 'default', 'bases': o['bases'], 'rational': bool(rng.random() < 0.3),
@@ -88,8 +94,68 @@ def generate(rng, tier):
     return specs
 
 
+def _end_weight_object(rng, pardim):
+    """Rational object whose corner/end weights are NOT 1."""
+    o = gen.rand_object(rng, pardim=pardim, pmax=3, max_interior=1, rational=True, periodic_prob=0.0)
+    arr = np.array(o['cps'], dtype=float)
+    w_old = arr[..., -1:].copy()
+    w_new = np.array([rng.choice([0.5, 2.0, 1.5, 0.25, 3.0]) for _ in range(w_old.size)]).reshape(w_old.shape)
+    arr[..., :-1] = arr[..., :-1] / w_old * w_new      # keep the Cartesian points, change the weights
+    arr[..., -1:] = w_new
+    o['cps'] = arr.tolist()
+    return o
+
+
+def _seq_spec(rng, o):
+    pardim = len(o['bases'])
+    if rng.random() < 0.6:
+        o = _end_weight_object(rng, pardim)
+    calls = []
+    ends = [[gen.basis_info(b)['start'], gen.basis_info(b)['end']] for b in o['bases']]
+    for j in range(rng.randint(2, 4)):
+        kind = rng.choice(['scalar-end', 'scalar-end', 'scalar', 'grid', 'pointwise', 'list-end'])
+        how = rng.choice(['evaluate', 'call'])
+        if kind == 'scalar-end':
+            ps = [[rng.choice(e)] if b['periodic'] < 0 else [gen.basis_info(b)['start']] for e, b in zip(ends, o['bases'])]
+            calls.append({'how': how, 'scalar': True, 'params': ps, 'tensor': True})
+        elif kind == 'list-end':
+            ps = [[rng.choice(e)] for e in ends]
+            calls.append({'how': how, 'scalar': False, 'params': ps, 'tensor': True})
+        elif kind == 'scalar':
+            calls.append({'how': how, 'scalar': True, 'params': [p[:1] for p in _params(rng, o, 1)], 'tensor': True})
+        elif kind == 'grid':
+            calls.append({'how': how, 'scalar': False, 'params': _params(rng, o, 2), 'tensor': True})
+        else:
+            pw = _params(rng, o, 2)
+            m = min(len(p) for p in pw)
+            calls.append({'how': 'evaluate', 'scalar': False, 'params': [p[:m] for p in pw], 'tensor': False})
+    # always finish with a grid over both ends and an interior point
+    last = []
+    for e, b in zip(ends, o['bases']):
+        last.append([e[0], (e[0] + e[1]) / 2, e[1]] if b['periodic'] < 0 else [e[0], (e[0] + e[1]) / 2])
+    calls.append({'how': 'evaluate', 'scalar': False, 'params': last, 'tensor': True})
+    return {'form': 'seq', 'obj': o, 'calls': calls}
+
+
+def _do_call(o, c):
+    args = [p[0] for p in c['params']] if c['scalar'] else [list(p) for p in c['params']]
+    if c['how'] == 'call':
+        r = o(*args) if c['tensor'] else o(*args, tensor=False)
+    else:
+        r = o.evaluate(*args) if c['tensor'] else o.evaluate(*args, tensor=False)
+    return np.asarray(r)
+
+
+def _seq_shape(o, c):
+    if c['tensor']:
+        return [len(p) for p in c['params']] + [o.dimension]
+    return [len(c['params'][0]), o.dimension]
+
+
 def model_line(s):
     f = s['form']
+    if f == 'seq':
+        return line('obj_eval_seq', gen.enc_object(s['obj']), gen.TOL, [[c['params'], bool(c['tensor'])] for c in s['calls']])
     if f == 'bbox':
         return line('obj_bbox', gen.enc_object(s['obj']))
     if f == 'default':
@@ -112,6 +178,17 @@ def run_impl(sp, s):
         o = cls(*bases, rational=s['rational'])
         return [gen.obj_observables(o), _shape_flat(o.evaluate(*s['params']))]
     o = gen.mk_object(sp, s['obj'])
+    if f == 'seq':
+        out = []
+        for c in s['calls']:
+            r = _do_call(o, c)
+            shp = _seq_shape(o, c)
+            if int(np.prod(shp)) != r.size:
+                out.append(['bad-shape', list(r.shape)])
+            else:
+                out.append([shp, r.reshape(-1).tolist()])
+        out.append(gen.obj_observables(o))
+        return out
     if f == 'grid':
         return _shape_flat(o.evaluate(*s['params']))
     if f == 'mixed':
@@ -180,6 +257,27 @@ def oracle(sp, s):
                 break
         return fails
     o = gen.mk_object(sp, s['obj'])
+    if f == 'seq':
+        import itertools
+        before = np.array(o.controlpoints, copy=True)
+        for ci, c in enumerate(s['calls']):
+            r = _do_call(o, c)
+            shp = _seq_shape(o, c)
+            if int(np.prod(shp)) != r.size:
+                return ['call %d returned shape %s' % (ci, r.shape)]
+            r = r.reshape(shp)
+            pdm = len(c['params'])
+            idxs = itertools.product(*[range(len(p)) for p in c['params']]) if c['tensor'] else [(i,) * pdm for i in range(len(c['params'][0]))]
+            for idx in idxs:
+                want = exact.nurbs_point(s['obj'], [c['params'][k][idx[k]] for k in range(pdm)])   # from the SPEC, not from the live object
+                got = r[idx] if c['tensor'] else r[idx[0]]
+                if not exact.close(got, want, RTOL, 1e-10):
+                    return ['call %d of a sequence on one object (%s, %s) differs from the NURBS definition of the object as built, at %r: %r vs %r' % (
+                        ci, c['how'], 'scalar' if c['scalar'] else ('grid' if c['tensor'] else 'pointwise'),
+                        [c['params'][k][idx[k]] for k in range(pdm)], np.asarray(got).tolist(), [float(x) for x in want])]
+            if not np.array_equal(np.asarray(o.controlpoints), before):
+                return ['evaluation call %d modified the control points of the object' % ci]
+        return []
     params = s['params']
     pd = len(params)
     if f == 'pointwise' and len({len(p) for p in params}) != 1:
@@ -269,6 +367,17 @@ def compare(s, iv, mv):
 
 
 def tags(s, res):
+    if s['form'] == 'seq':
+        out = ['form=seq', 'pardim=%d' % len(s['obj']['bases'])]
+        if s['obj']['rational']:
+            out.append('rational')
+            cp = np.array(s['obj']['cps'])
+            corner = cp[tuple([0] * (cp.ndim - 1))][-1]
+            if corner != 1.0:
+                out.append('seq:end-weight-not-one')
+        if any(c['scalar'] and c['how'] == 'evaluate' for c in s['calls'][:-1]):
+            out.append('seq:scalar-evaluate-then-more')
+        return out
     out = ['form=' + ('grid' if s['form'] == 'call' else s['form'])]
     if s['form'] == 'mixed':
         out.append('mixed:pardim=%d' % len(s['params']))
@@ -287,6 +396,8 @@ def tags(s, res):
 
 
 def nontrivial(s, res):
+    if s['form'] == 'seq':
+        return True
     if 'params' not in s:
         return True
     bases = s['obj']['bases'] if 'obj' in s else s['bases']
